@@ -2223,7 +2223,11 @@ class IrregularLattice(Lattice):
             self.N_sites_per_ring = None
 
     # mps2lat_idx and lat2mps_idx work thanks to the way _perm is defined,
-    # mps2lat_values, mps2lat_values_masked work as well
+    # mps2lat_values_masked works as well
+
+    def mps2lat_values(self, *args, **kwargs):
+        """Not implemented, use :meth:`mps2lat_values_masked` instead."""
+        raise NotImplementedError('Use mps2lat_values_masked instead')
 
     def mps_idx_fix_u(self, u=None):
         if u is not None:
